@@ -12,10 +12,11 @@ cfg) ensure_cfg cfg ;;
 cfg-thr) ensure_cfg cfg-thr -DENABLE_THREADING=ON ;;
 esac
 
+JSONC_SRCS=$(jsonc_sources "$CFG")
 # ---- json-c objects (content-hash cache: recompiled whenever any source/header/flag changes)
 OD=$B/jc-$variant
 mkdir -p "$OD"
-srchash=$( (cd "$REPO" && cat *.c *.h 2>/dev/null; cat "$B/$CFG/config.h" "$B/$CFG/json_config.h" "$B/$CFG/json.h"; echo "$CC $JCFLAGS") | sha256sum | cut -d' ' -f1)
+srchash=$( (cd "$REPO" && cat *.c *.h 2>/dev/null; cat "$B/$CFG/config.h" "$B/$CFG/json_config.h" "$B/$CFG/json.h"; echo "$CC $JCFLAGS $JSONC_SRCS") | sha256sum | cut -d' ' -f1)
 if [ ! -f "$OD/.stamp" ] || [ "$(cat "$OD/.stamp")" != "$srchash" ]; then
 	rm -f "$OD"/*.o "$OD/.stamp"
 	pids=()
